@@ -498,7 +498,7 @@ func checkCase(c c06Case) (o pbt.Outcome) {
 }
 
 func TestC06FastPath(t *testing.T) {
-	pbt.Run(t, pbt.Spec{ID: "C06", Sub: "fastpath", Quick: 600, Thorough: 5000,
+	pbt.Run(t, pbt.Spec{ID: "C06", Sub: "fastpath", Quick: 600, Thorough: 2500,
 		Rule: "sessions (current db: db / none / db2) of 1-6 statements of 21 shapes (select, comma join, join, left join, subquery in FROM / WHERE, union, delete, multi-table delete, delete with subquery, insert with/without INTO, insert set, insert select, replace with/without INTO, update, update with alias, multi-table update, update join, update with subquery) over hash, linked, global, mod (rule configured with capitals) and unsharded tables; names in lower/UPPER/Capitalised case, schema-qualified (db, db2, DB), backquoted, with newline, tab, CRLF or a comment (glued or spaced) before and after the name, parentheses and column lists glued to the name, keyword case, leading comment / hint, trailing comment / semicolon. non-trivial = the case contains a statement that the full analysis plans as sharded and that is not the canonical undecorated single-table form",
 		Floor: 0.5}, genCase, checkCase)
 }
